@@ -92,10 +92,15 @@ func (c *Config) Token(ctx context.Context) (*TokenInfo, error) {
 
 func (c *Config) calculateCacheKey() string {
 	digest := sha256.New()
+	// the components are separated from each other. Otherwise, different configurations,
+	// like the scopes [ab, c] and [a, bc], would result in the same value
 	digest.Write(stringx.ToBytes(c.ClientID))
+	digest.Write([]byte{0})
 	digest.Write(stringx.ToBytes(c.ClientSecret))
+	digest.Write([]byte{0})
 	digest.Write(stringx.ToBytes(c.TokenURL))
-	digest.Write(stringx.ToBytes(strings.Join(c.Scopes, "")))
+	digest.Write([]byte{0})
+	digest.Write(stringx.ToBytes(strings.Join(c.Scopes, "\x00")))
 
 	return hex.EncodeToString(digest.Sum(nil))
 }
@@ -234,10 +239,15 @@ func (c *Config) Apply(_ context.Context, req *http.Request) error {
 
 func (c *Config) Hash() []byte {
 	digest := sha256.New()
+	// the components are separated from each other. Otherwise, different configurations,
+	// like the scopes [ab, c] and [a, bc], would result in the same value
 	digest.Write(stringx.ToBytes(c.ClientID))
+	digest.Write([]byte{0})
 	digest.Write(stringx.ToBytes(c.ClientSecret))
+	digest.Write([]byte{0})
 	digest.Write(stringx.ToBytes(c.TokenURL))
-	digest.Write(stringx.ToBytes(strings.Join(c.Scopes, "")))
+	digest.Write([]byte{0})
+	digest.Write(stringx.ToBytes(strings.Join(c.Scopes, "\x00")))
 
 	return digest.Sum(nil)
 }
